@@ -382,25 +382,35 @@ def r4(facts):
     no = facts.fn('OPNMIDIplay::realTime_NoteOn')
     eq = None
     ok = False
-    def rec(t):
-        nonlocal eq, ok
-        if isinstance(t, dict):
-            if t.get('k') == 'IfStmt' and t.get('cond') is not None:
-                c = show(t['cond']).replace(' ', '')
-                if 'voices[0]' in c and 'voices[1]' in c and '==' in c and '!' not in c:
-                    eq = t
-                    th = t.get('then')
-                    th = th['body'][0] if isinstance(th, dict) and th.get('k') == 'CompoundStmt' and len(th.get('body', [])) == 1 else th
-                    if isinstance(th, dict) and th.get('k') == 'BreakStmt':
-                        ok = True
-            for k2 in ('body', 'then', 'else', 'sub', 'init'):
-                v = t.get(k2)
-                if isinstance(v, (dict, list)):
-                    rec(v)
-        elif isinstance(t, list):
-            for y in t:
-                rec(y)
-    rec(no.tree)
+    # a `break` of the voice loop whose guard says "element 0 and element 1 of the voice array are equal" (alone, or as one
+    # alternative of a merged condition), whatever the array is called
+    def voices_equal(e):
+        e = strip(e)
+        ops = None
+        if e.get('k') == 'BinaryOperator' and e.get('op') == '==':
+            ops = (strip(e['l']), strip(e['r']))
+        elif e.get('k') == 'CXXOperatorCallExpr' and short(e.get('callee', '')) == 'operator==' and len(e.get('a', [])) == 2:
+            ops = (strip(e['a'][0]), strip(e['a'][1]))
+        if not ops or not all(o.get('k') == 'ArraySubscriptExpr' for o in ops):
+            return False
+        b0, b1 = strip(ops[0]['b']), strip(ops[1]['b'])
+        return b0.get('k') == 'DeclRefExpr' and b0.get('id') == b1.get('id') and {const_of(ops[0]['i']), const_of(ops[1]['i'])} == {0, 1}
+    def flat_(fs):
+        for f in fs:
+            if f[0] == 'or':
+                for alt in f[1]:
+                    yield from flat_(alt)
+            else:
+                yield f
+    for node, g in no.jump_guards():
+        if node.get('k') != 'BreakStmt':
+            continue
+        for f in flat_(facts_of_guards(g)):
+            body = f[1] if f[0] == 'truth' else None
+            if f[0] == 'truth' and f[2] and voices_equal(body):
+                ok, eq = True, node
+            if f[0] == 'cmp' and f[1] == '==' and voices_equal({'k': 'BinaryOperator', 'op': '==', 'l': f[2], 'r': f[3]}):
+                ok, eq = True, node
     out.append(Obl('C06.R4', no.name, 'second voice only when the voices differ', ('%s:%s' % (no.file, eq.get('ln')) if eq else no.loc), 'discharged' if ok else 'finding',
                    why='`if(voices[0] == voices[1]) break;` in the voice loop' if ok else 'the voice loop does not stop after the first voice of a single-voice instrument'))
     n = 0
